@@ -13,7 +13,15 @@ pub const VOCAB: &[&str] = &[
     "unfortunately", "café", "naïve", "über", "你好", "世界", "日本語", "😂", "e-mail", "tic-tac-toe", "a/b", "don't", "x-y", "3.14", "1,5",
     "(paren)", "end.", "yes?", "a#b", "c>d", "x*", "y+", "q/", "é", "ß", "Ｈ", "ᄀ", ",bar", ".x", ";s", ":c", "=x", "~t", "_u", "@h", "&and", "!x", "%p", "$5", "^c",
     "|p", "\\b", "'q", "\"d", "<l", "[b", "]b", "{c", "}c", "`t", "?w", ")r", "state-of-the-art", "well-known", "self-contained",
+    // structure of real documents: suspended hyphens, URLs ending in a slash, list markers, words ending in prefix
+    // characters, markdown, dates, versions, emoji sequences
+    "pre-", "two-", "left-", "and", "post-processing", "https://crates.io/", "https://docs.rs/textwrap/", "http://x.org/a/", "ftp://h/",
+    "1.", "2.", "12)", "10.", "(a)", "C++", "C#", "=>", "<br>", "100%", "docs/", "e.g.", "i.e.", "[link](https://example.com/)", "`code`", "key:",
+    "2024-01-15", "0.16.2", "x86_64-unknown-linux-gnu", "user@example.com", "\u{26a0}\u{fe0f}", "\u{1f44d}\u{1f3fd}", "a-", "b+", "c*", "d>", "e#",
 ];
+
+/// Words that often open a real paragraph: numbered-list and other markers (none begins with a prefix character).
+pub const OPENERS: &[&str] = &["1.", "2.", "3.", "12)", "10.", "(1)", "a)", "Note:", "TODO:", "Q:", "[1]"];
 
 pub fn gen_paragraph(r: &mut Rng) -> String {
     let n = r.range(1, 12);
@@ -22,7 +30,11 @@ pub fn gen_paragraph(r: &mut Rng) -> String {
         if k > 0 {
             s.push(' ');
         }
-        s.push_str(*r.pick(VOCAB));
+        if k == 0 && r.chance(1, 8) {
+            s.push_str(*r.pick(OPENERS));
+        } else {
+            s.push_str(*r.pick(VOCAB));
+        }
     }
     s
 }
@@ -59,7 +71,7 @@ fn gen(r: &mut Rng, _cfg: &RunCfg) -> Case {
         Case::new("roundtrip").text(p).opt(o).num(r.coin() as usize)
     } else {
         // structural half: arbitrary strings heavy in line endings, CR and prefix characters
-        let m = Mix::swarm(r, &[Class::Ascii, Class::Wide, Class::Zero, Class::Punct, Class::Space, Class::Para, Class::Prefix, Class::Clean, Class::Dirty, Class::Scalars]);
+        let m = Mix::swarm(r, &[Class::Ascii, Class::Wide, Class::Zero, Class::Punct, Class::Space, Class::Para, Class::Prefix, Class::Clean, Class::Dirty, Class::Scalars, Class::Real, Class::RealStyled]);
         let mut s = String::new();
         for _ in 0..r.range(0, 10) {
             match r.below(8) {
